@@ -38,7 +38,7 @@ PROP_MODULES = {
     "C16": [("C16", r".*"), ("C16Static", r".*")],
     "C17": [("C17", r".*"), ("C17Names", r".*"), ("C17Extra", r".*"), ("C17ExtraU", r".*"), ("GenTies", r"kindNames"), ("C15", r"parse_total"), ("ErrTies", r".*")],
     "C18": [("C18", r".*"), ("C01Prime", r"lookup|computeTables|estimateMemory"), ("GenTies", r"MaxMem|EstimateMemory"),
-            ("CodeTies", r"estimateMemory_tie"), ("C01Ext", r"log"), ("C18Tables", r".*"), ("C18Tables2", r".*")],
+            ("CodeTies", r"estimateMemory_tie"), ("C01Ext", r"log"), ("C18Tables", r".*"), ("C18Tables2", r".*"), ("C18Tables3", r".*"), ("C18Tables4", r".*")],
 }
 
 
